@@ -542,6 +542,18 @@ fn forge_req(d: &mut D, enc_ctx: u64, name: &str, args: Value, src: u8, iid: u8,
     p[3] = (src << 1) | 1;
     p[6] = src;
     p[9] = 0x80 | (dbit << 6) | (iid & 0x1F);
+    // the flag byte of the transport header is the requester's business: mostly what this library's encoders
+    // write (SOM, EOM, sequence 0, tag owner, tag 0), otherwise another message tag, the tag-owner bit clear,
+    // another packet sequence number, or any byte at all (the decoder decides what it accepts; the monitor
+    // judges the outcome either way)
+    let r = d.g.below(16);
+    match r {
+        0 | 1 => p[7] = 0xC8 | (1 + d.g.below(7) as u8),
+        2 => p[7] = 0xC0 | d.g.below(8) as u8,
+        3 => p[7] = 0xC8 | ((1 + d.g.below(3) as u8) << 4) | d.g.below(8) as u8,
+        4 => p[7] = d.g.byte(),
+        _ => {}
+    }
     fix_pec(&mut p);
     p
 }
